@@ -71,6 +71,9 @@ func (c09BadBuffer) Remove() error                { return nil }
 // reset). A recipient with a 5th field, a form outside "ailu" or an accept outside 0/1 selects the
 // positional next hop (vc09): RCPT answers and per-recipient replies are given by position, so
 // they do not depend on how the address is spelled.
+// The same id may occur several times: the very same address string is added again (an exact
+// duplicate, e.g. two aliases expanded to one mailbox); every occurrence has its own RCPT answer and
+// its own per-recipient reply. A repeated id selects the positional next hop too.
 func c09LMTP(t *testing.T, out *vh.Out, spec string) {
 	f := strings.Split(spec, "/")
 	utf8 := f[0] == "1"
@@ -90,6 +93,7 @@ func c09LMTP(t *testing.T, out *vh.Out, spec string) {
 	}
 	var rcs []rc
 	positional := false
+	occurs := map[int]int{}
 	for _, rs := range strings.Split(f[1], ",") {
 		p := strings.Split(rs, ".")
 		id, _ := strconv.Atoi(p[0])
@@ -97,6 +101,15 @@ func c09LMTP(t *testing.T, out *vh.Out, spec string) {
 		if len(p) > 4 {
 			r.mbox, _ = strconv.Atoi(p[4])
 			positional = true
+		}
+		occurs[id]++
+		if occurs[id] > 1 {
+			positional = true
+			for _, q := range rcs {
+				if q.id == id && (q.form != r.form || q.mbox != r.mbox) {
+					t.Fatalf("ill-formed op: id %d names two different addresses: %s", id, spec)
+				}
+			}
 		}
 		if !strings.ContainsRune("ailu", rune(r.form)) || (r.act != '0' && r.act != '1') {
 			positional = true
@@ -229,6 +242,40 @@ func c09LMTP(t *testing.T, out *vh.Out, spec string) {
 	}
 	if pos != nil {
 		pos.NextRcpt(0)
+	}
+	// exact duplicates: how often, and are they followed by an accepted recipient whose per-recipient
+	// reply differs from theirs (a shifted reply-to-address mapping then changes a value, not only a key)
+	for i, r := range rcs {
+		if occurs[r.id] < 2 {
+			continue
+		}
+		first := true
+		for _, q := range rcs[:i] {
+			if q.id == r.id {
+				first = false
+			}
+		}
+		if !first {
+			continue
+		}
+		out.Stat(fmt.Sprintf("lmtp.duplicate.same-address-%d-times", occurs[r.id]))
+		if acceptedN[r.id] >= 2 {
+			out.Stat("lmtp.duplicate.accepted-more-than-once")
+			differs := false
+			for j, q := range rcs[i+1:] {
+				if q.id == r.id || acceptedN[q.id] == 0 || q.act != '1' {
+					continue
+				}
+				for _, o := range rcs[:i+1+j] {
+					if o.id == r.id && o.act == '1' && o.ok != q.ok {
+						differs = true
+					}
+				}
+			}
+			if differs {
+				out.Stat("lmtp.duplicate.followed-by-recipient-with-another-reply")
+			}
+		}
 	}
 	if dataFail || openFail || faulted {
 		serverSt = nil
@@ -423,6 +470,43 @@ func TestVerifC09LMTP(t *testing.T) {
 				id++
 				acc, ok := pick()
 				insert(fmt.Sprintf("%d.%c.%c.%s", id, "aailuxcd"[r.Intn(8)], acc, ok))
+			}
+			// exact duplicates: one of the recipients is added again (once or twice more) with the very
+			// same address string — next to the first occurrence or later — every occurrence with its own
+			// RCPT answer and per-recipient reply; mostly followed by a fresh recipient whose reply differs
+			if r.Chance(45) {
+				k := r.Intn(len(rs))
+				orig := strings.Split(rs[k], ".")
+				lastOK := orig[3]
+				at := k
+				for n := 1 + r.Intn(100)/65; n > 0; n-- {
+					acc, ok := pick()
+					if r.Chance(70) {
+						acc = '1'
+					}
+					cp := append([]string{}, orig...)
+					cp[2], cp[3] = string(rune(acc)), ok
+					at = at + 1 + r.Intn(len(rs)-at)
+					if r.Chance(40) {
+						at = k + 1
+					}
+					rs = append(rs, "")
+					copy(rs[at+1:], rs[at:])
+					rs[at] = strings.Join(cp, ".")
+					lastOK = ok
+				}
+				if r.Chance(75) {
+					id++
+					other := "o"
+					if lastOK == "o" {
+						other = "f"
+					}
+					rs = append(rs, fmt.Sprintf("%d.%c.1.%s", id, "aaixuc"[r.Intn(6)], other))
+					if r.Chance(40) {
+						id++
+						rs = append(rs, fmt.Sprintf("%d.%c.1.%s", id, "aail"[r.Intn(4)], lastOK))
+					}
+				}
 			}
 			if r.Chance(20) {
 				id++
